@@ -7,6 +7,7 @@ import (
 	"fmt"
 	"net"
 	"net/url"
+	"os"
 	"sort"
 	"strings"
 	"sync"
@@ -43,6 +44,7 @@ type TransferPlan struct {
 	MagnetTiers  [][]string `json:"magnet_tiers,omitempty"`
 	// DiskWriteLatMax stretches the window in which a piece write is in flight.
 	DiskWriteLatMax time.Duration `json:"disk_write_lat_max,omitempty"`
+	DiskInstant     bool          `json:"disk_instant,omitempty"`
 	// LiveTrackers: this many scripted HTTP trackers answer the torrent's announces.
 	LiveTrackers int `json:"live_trackers,omitempty"`
 	// YieldP: probability of a seeded yield before each mutex acquisition in rain (see simrt.Yield).
@@ -416,11 +418,24 @@ func RunTransfer(env *Env, plan *TransferPlan) {
 		}
 	}()
 	T.RebuildMeta()
+	if os.Getenv("SIM_DUMPPIECES") != "" {
+		for _, i := range []int{33, 34, 89} {
+			if i < T.NumPieces {
+				d := T.Piece(i)
+				simrt.Logf("DUMP piece %d first %v sha %v", i, d[:8], sha1.Sum(d))
+			}
+		}
+	}
 
 	sutHost := env.NewHost("sut", "sut")
 	fs := simfs.New("sut", env.R.Uint64())
 	if plan.DiskWriteLatMax > 0 {
 		fs.WriteLat[1] = plan.DiskWriteLatMax
+	}
+	if plan.DiskInstant {
+		// writes that cost no simulated time (a page cache): whether a write result or the rest
+		// of the event loop's work comes first is then the seeded scheduler's decision
+		fs.WriteLat = [2]time.Duration{0, 0}
 	}
 	sut, err := env.StartNode(sutHost, fs, "", plan.K)
 	if err != nil {
@@ -731,7 +746,25 @@ func RunTransfer(env *Env, plan *TransferPlan) {
 	env.Stats["have"] = st.Pieces.Have
 	env.Stats["writes"] = w.writesBegun
 	hasSource := false
+	// an honest peer is a source only if it can get a connection slot: peers that stall and
+	// stay connected beyond "faults stop" keep theirs (the client does not drop a peer for
+	// being useless), and with as many of them as MaxPeerAccept / MaxPeerDial allows an honest
+	// peer arriving the same way is turned away for good
+	staying := map[string]int{}
 	for _, ps := range plan.Peers {
+		if ps.Stays && !ps.Honest {
+			staying[ps.Mode]++
+		}
+	}
+	for _, ps := range plan.Peers {
+		limit := sut.Cfg.MaxPeerDial
+		if ps.Mode == "dial" {
+			limit = sut.Cfg.MaxPeerAccept
+		}
+		if ps.Honest && staying[ps.Mode] >= limit {
+			simrt.Count("probe.transfer.honest_peer_without_slot", 1)
+			continue
+		}
 		hasSource = hasSource || ps.Honest
 	}
 	for _, ws := range plan.Webseeds {
